@@ -828,3 +828,768 @@ Proof.
   intros [|[|[|k]]] Hk; cbn in Hk; try lia; unfold fbslot, fbcol, cslot; cbn -[FR]; rewrite ?E15, ?E3, ?E4;
     apply no_underflow_ge1; rewrite Rabs_pos_eq; lra.
 Qed.
+
+(* Proofs/Round2PinBand.v -- package round2, pin blocks for C04 (append to Props/C04.v).  Compiled copy of the blocks,
+   in the scope context of Props/C04.v (nat_scope open, Reals imported, R_scope not open).
+   ======================================================================================================
+   C04 (banded matrices), rounding half of the SOLVER -- package round2.
+   Round one left "band_solve / band_det -- the compact LU with its shifting storage" uncovered.  The blocks below are about
+   the two substitution phases of [band_solve] (Model/Banded.v: [fwd_step] with the recorded row exchanges, [back_step]
+   with the growing window), first over ANY arithmetic (what each output component is, as a left fold
+   sfold [(a_0,v_0); ...] s = (..((s - a_0*v_0) - a_1*v_1)..) of the arithmetic's own operations), then in the STANDARD
+   MODEL of floating-point arithmetic (Base/RoundModel.v: the same Gallina functions at ARm):
+     band_back_trace                         x_i = (sfold [(au[i][k], x_(i+k)) | 1 <= k < l_i] y_i) / au[i][0],  l_i = min mm (n-i)
+     band_backsolve_backward_error           (U + dU) x = y row by row, |dU_(i,i+k)| <= gam(l_i) |au[i][k]|: the constant depends on
+                                             the bandwidth mm = m1+m2+1, not on n                       (Higham Thm 8.5 for the band)
+     band_fwd_trace                          y_r = sfold [(a, y_j) | (a,j) in fhist r] b_(fperm r): the multipliers applied to the
+                                             entry of b that the recorded exchanges bring to position r
+     band_forward_backward_error             (L + dL) y = P b row by row, unit lower triangular L (row r = fhist r), |dL| <= gam(c_r)|L|,
+                                             c_r = number of updates of that entry (<= r; not bounded by m1 under pivoting)
+     band_forward_noswap_backward_error      no exchanges: L is the unit lower BAND matrix al[j][r-j-1], constant gam(min r m1)
+     band_dec_trace / band_lu_backward_error / band_lu_noswap_backward_error
+                                             the main loop of decompose: entries of au and the multipliers in al as folds; row-wise
+                                             L U = P B + dB, |dB| <= gam(c_r)|L||U| (Higham Thm 9.3); gam(min r m1) without exchanges
+     band_history_shape                      row r of L: c_r <= r multipliers of the consecutive stages r - c_r .. r-1
+     band_solve_phases                       band_solve = shift_rows ; main loop ; forward phase ; back substitution
+     band_solve_backward_error               the three row-wise statements for the factors band_solve computed itself
+     band_solve_single_backward_error        multiplied out: (B + dB) x = b, |dB| <= (3 gam N + gam N^2)|L||U| (Higham Thm 9.4)
+     band_solve_noswap_single_backward_error the same when no rows were exchanged: |dB| <= gam(3(m1+m2+1))|L||U|, bandwidth only
+   Hypothesis throughout: the computed pivots au[k][0] are nonzero (division by zero does not panic in the rounded reals).
+   NOT covered: a bound of |L||U| by |B| (growth factor); binary64 itself (the standard model is assumed, discharged for
+   53-bit round-to-nearest with unbounded exponent in Proofs/RoundFlx.v); band_det.
+   ====================================================================================================== *)
+From Coq Require Import List Arith ZArith QArith Qcanon Lia Floats.
+From OV Require Import Base.Panic Base.Arith Base.Flat Model.Vector Model.Matrix Model.Banded Inst.QcInst Inst.FloatInst Proofs.Banded Proofs.BandedLU Proofs.BandedTotal Proofs.BandedComplete.
+Import ListNotations.
+Local Open Scope nat_scope.
+From Coq Require Import Reals.
+(* ---- the blocks start here ---- *)
+From Coq Require Import Reals Lra Lia.
+From OV Require Import Base.RoundModel Proofs.RoundFlx Proofs.Round2Band Proofs.Round2BandB Proofs.Round2BandC.
+(* back substitution over ANY arithmetic: every component of the answer is one left fold over the final answer, divided by the pivot *)
+Theorem band_back_trace : forall (A : Arith) (au : matrix A) (mm n : nat) (y x : list A) (lf : nat),
+  cols au = mm -> 1 <= mm -> length y = n ->
+  for_rev 0 n (back_step mm au) (y, 1) = Ok (x, lf) ->
+  length x = n /\
+  forall i, i < n ->
+    div (bacc au mm i (bwin mm n i) x (nth i y zero)) (mat_at au mm i 0) = Ok (nth i x zero).
+Proof. intros A au mm n y x lf. exact (band_back_trace_lemma au mm n y x lf). Qed.
+Check band_back_trace : forall (A : Arith) (au : matrix A) (mm n : nat) (y x : list A) (lf : nat),
+  cols au = mm -> 1 <= mm -> length y = n ->
+  for_rev 0 n (back_step mm au) (y, 1) = Ok (x, lf) ->
+  length x = n /\
+  forall i, i < n ->
+    div (bacc au mm i (bwin mm n i) x (nth i y zero)) (mat_at au mm i 0) = Ok (nth i x zero).
+Print Assumptions band_back_trace.
+(* the loop answers on concrete data in the arithmetic that rounds every operation; the windows are 2, 2, 1 *)
+Example band_back_trace_nonvacuous :
+  cols exb_au = 2 /\ length exb_y = 3 /\
+  (exists x lf, for_rev 0 3 (back_step (A := AFlx) 2 exb_au) (exb_y, 1) = Ok (x, lf)) /\
+  map (bwin 2 3) [0; 1; 2] = [2; 2; 1] /\ xdiv 1%R 3%R <> (1 / 3)%R.
+Proof. split; [reflexivity|]. split; [reflexivity|]. split; [exact exb_back|]. split; [reflexivity|exact xdiv_inexact]. Qed.
+
+(* Higham Theorem 8.5 for the band: the computed x solves a nearby upper-banded system exactly; the constant is gam(l_i), l_i = min mm (n-i) <= mm *)
+Theorem band_backsolve_backward_error : forall (u : R), (0 <= u < 1)%R ->
+  forall (fadd fsub fmul fdiv : R -> R -> R),
+  (forall x y : R, exists d : R, (Rabs d <= u)%R /\ fsub x y = ((x - y) * (1 + d))%R) ->
+  (forall x y : R, exists d : R, (Rabs d <= u)%R /\ fmul x y = (x * y * (1 + d))%R) ->
+  (forall x y : R, y <> 0%R -> exists d : R, (Rabs d <= u)%R /\ fdiv x y = (x / y * (1 + d))%R) ->
+  forall (au : matrix (ARm fadd fsub fmul fdiv)) (mm n : nat) (y x : list R) (lf : nat),
+  cols au = mm -> 1 <= mm -> length y = n -> (INR mm * u < 1)%R ->
+  (forall i, i < n -> mat_at (A := ARm fadd fsub fmul fdiv) au mm i 0 <> 0%R) ->
+  for_rev 0 n (back_step (A := ARm fadd fsub fmul fdiv) mm au) (y, 1) = Ok (x, lf) ->
+  length x = n /\
+  exists dU : nat -> nat -> R,
+    (forall i k, i < n -> k < bwin mm n i ->
+       (Rabs (dU i k) <= gam u (bwin mm n i) * Rabs (mat_at (A := ARm fadd fsub fmul fdiv) au mm i k))%R) /\
+    forall i, i < n ->
+      Rsum (bwin mm n i) (fun k => ((mat_at (A := ARm fadd fsub fmul fdiv) au mm i k + dU i k) * nth (i + k) x 0)%R)
+      = nth i y 0%R.
+Proof. intros u Hu fadd fsub fmul fdiv Hs Hm Hd au mm n y x lf. exact (band_backsolve_backward_error_lemma u Hu fadd fsub fmul fdiv Hs Hm Hd au mm n y x lf). Qed.
+Check band_backsolve_backward_error : forall (u : R), (0 <= u < 1)%R ->
+  forall (fadd fsub fmul fdiv : R -> R -> R),
+  (forall x y : R, exists d : R, (Rabs d <= u)%R /\ fsub x y = ((x - y) * (1 + d))%R) ->
+  (forall x y : R, exists d : R, (Rabs d <= u)%R /\ fmul x y = (x * y * (1 + d))%R) ->
+  (forall x y : R, y <> 0%R -> exists d : R, (Rabs d <= u)%R /\ fdiv x y = (x / y * (1 + d))%R) ->
+  forall (au : matrix (ARm fadd fsub fmul fdiv)) (mm n : nat) (y x : list R) (lf : nat),
+  cols au = mm -> 1 <= mm -> length y = n -> (INR mm * u < 1)%R ->
+  (forall i, i < n -> mat_at (A := ARm fadd fsub fmul fdiv) au mm i 0 <> 0%R) ->
+  for_rev 0 n (back_step (A := ARm fadd fsub fmul fdiv) mm au) (y, 1) = Ok (x, lf) ->
+  length x = n /\
+  exists dU : nat -> nat -> R,
+    (forall i k, i < n -> k < bwin mm n i ->
+       (Rabs (dU i k) <= gam u (bwin mm n i) * Rabs (mat_at (A := ARm fadd fsub fmul fdiv) au mm i k))%R) /\
+    forall i, i < n ->
+      Rsum (bwin mm n i) (fun k => ((mat_at (A := ARm fadd fsub fmul fdiv) au mm i k + dU i k) * nth (i + k) x 0)%R)
+      = nth i y 0%R.
+Print Assumptions band_backsolve_backward_error.
+Example band_backsolve_backward_error_nonvacuous :
+  (0 <= ux < 1)%R /\
+  (forall x y : R, exists d : R, (Rabs d <= ux)%R /\ xsub x y = ((x - y) * (1 + d))%R) /\
+  (forall x y : R, exists d : R, (Rabs d <= ux)%R /\ xmul x y = (x * y * (1 + d))%R) /\
+  (forall x y : R, y <> 0%R -> exists d : R, (Rabs d <= ux)%R /\ xdiv x y = (x / y * (1 + d))%R) /\
+  cols exb_au = 2 /\ length exb_y = 3 /\ (INR 2 * ux < 1)%R /\
+  (forall i, i < 3 -> mat_at (A := AFlx) exb_au 2 i 0 <> 0%R) /\
+  (exists x lf, for_rev 0 3 (back_step (A := AFlx) 2 exb_au) (exb_y, 1) = Ok (x, lf)) /\
+  xdiv 1%R 3%R <> (1 / 3)%R.
+Proof.
+  split; [exact ux_range|]. split; [exact xsub_ok|]. split; [exact xmul_ok|]. split; [exact xdiv_ok|].
+  split; [reflexivity|]. split; [reflexivity|]. split; [exact exb_size2|]. split; [exact exb_pivots|].
+  split; [exact exb_back|exact xdiv_inexact].
+Qed.
+
+(* the forward phase over ANY arithmetic, with the recorded row exchanges: position r holds the entry b_(fperm r), updated by the multipliers of fhist r *)
+Theorem band_fwd_trace : forall (A : Arith) (al : matrix A) (index : list nat) (n m1 : nat) (b y : list A) (lf : nat),
+  cols al = m1 -> m1 <= n -> length b = n ->
+  (forall k, k < n -> k + 1 <= nth k index 0) ->
+  for_ 0 n (fwd_step n al index) (b, m1) = Ok (y, lf) ->
+  length y = n /\
+  forall r, nth r y zero = sfold (fterms (fhist n m1 al index n r) y) (nth (fperm index n r) b zero).
+Proof. intros A al index n m1 b y lf. exact (band_fwd_trace_lemma al index n m1 b y lf). Qed.
+Check band_fwd_trace : forall (A : Arith) (al : matrix A) (index : list nat) (n m1 : nat) (b y : list A) (lf : nat),
+  cols al = m1 -> m1 <= n -> length b = n ->
+  (forall k, k < n -> k + 1 <= nth k index 0) ->
+  for_ 0 n (fwd_step n al index) (b, m1) = Ok (y, lf) ->
+  length y = n /\
+  forall r, nth r y zero = sfold (fterms (fhist n m1 al index n r) y) (nth (fperm index n r) b zero).
+Print Assumptions band_fwd_trace.
+(* a record with a genuine exchange (rows 0 and 1 at stage 0): position 0 receives b_1, positions 1 and 2 are updated once *)
+Example band_fwd_trace_nonvacuous :
+  cols exb_al = 1 /\ length exb_b = 3 /\
+  (forall k, k < 3 -> k + 1 <= nth k exb_index 0) /\
+  (exists y lf, for_ 0 3 (fwd_step (A := AFlx) 3 exb_al exb_index) (exb_b, 1) = Ok (y, lf)) /\
+  map (fperm exb_index 3) [0; 1; 2] = [1; 0; 2] /\
+  map (fun r => length (fhist (A := AFlx) 3 1 exb_al exb_index 3 r)) [0; 1; 2] = [0; 1; 1].
+Proof.
+  split; [reflexivity|]. split; [reflexivity|]. split; [exact exb_index_ok|]. split; [exact exb_fwd|].
+  split; [exact exb_fperm|exact exb_fhist_len].
+Qed.
+
+(* (L + dL) y = P b for the forward phase with exchanges: L unit lower triangular (all stages in row r are < r), c_r = length (fhist r) <= r updates *)
+Theorem band_forward_backward_error : forall (u : R), (0 <= u < 1)%R ->
+  forall (fadd fsub fmul fdiv : R -> R -> R),
+  (forall x y : R, exists d : R, (Rabs d <= u)%R /\ fsub x y = ((x - y) * (1 + d))%R) ->
+  (forall x y : R, exists d : R, (Rabs d <= u)%R /\ fmul x y = (x * y * (1 + d))%R) ->
+  forall (al : matrix (ARm fadd fsub fmul fdiv)) (index : list nat) (n m1 : nat) (b y : list R) (lf : nat),
+  cols al = m1 -> m1 <= n -> length b = n ->
+  (forall k, k < n -> k + 1 <= nth k index 0) ->
+  for_ 0 n (fwd_step (A := ARm fadd fsub fmul fdiv) n al index) (b, m1) = Ok (y, lf) ->
+  length y = n /\
+  forall r, r < n ->
+    let h : list (R * nat) := fhist (A := ARm fadd fsub fmul fdiv) n m1 al index n r in
+    length h <= r /\
+    (forall t, t < length h -> snd (nth t h (0%R, 0)) < r) /\
+    ((INR (length h) * u < 1)%R ->
+     exists (dd : R) (dL : nat -> R),
+       (Rabs dd <= gam u (length h))%R /\
+       (forall t, t < length h -> (Rabs (dL t) <= gam u (length h) * Rabs (fst (nth t h (0%R, 0%nat))))%R) /\
+       ((1 + dd) * nth r y 0
+        + Rsum (length h) (fun t => (fst (nth t h (0, 0%nat)) + dL t) * nth (snd (nth t h (0, 0%nat))) y 0)
+        = nth (fperm index n r) b 0)%R).
+Proof. intros u Hu fadd fsub fmul fdiv Hs Hm al index n m1 b y lf. exact (band_forward_backward_error_lemma u Hu fadd fsub fmul fdiv Hs Hm al index n m1 b y lf). Qed.
+Check band_forward_backward_error : forall (u : R), (0 <= u < 1)%R ->
+  forall (fadd fsub fmul fdiv : R -> R -> R),
+  (forall x y : R, exists d : R, (Rabs d <= u)%R /\ fsub x y = ((x - y) * (1 + d))%R) ->
+  (forall x y : R, exists d : R, (Rabs d <= u)%R /\ fmul x y = (x * y * (1 + d))%R) ->
+  forall (al : matrix (ARm fadd fsub fmul fdiv)) (index : list nat) (n m1 : nat) (b y : list R) (lf : nat),
+  cols al = m1 -> m1 <= n -> length b = n ->
+  (forall k, k < n -> k + 1 <= nth k index 0) ->
+  for_ 0 n (fwd_step (A := ARm fadd fsub fmul fdiv) n al index) (b, m1) = Ok (y, lf) ->
+  length y = n /\
+  forall r, r < n ->
+    let h : list (R * nat) := fhist (A := ARm fadd fsub fmul fdiv) n m1 al index n r in
+    length h <= r /\
+    (forall t, t < length h -> snd (nth t h (0%R, 0)) < r) /\
+    ((INR (length h) * u < 1)%R ->
+     exists (dd : R) (dL : nat -> R),
+       (Rabs dd <= gam u (length h))%R /\
+       (forall t, t < length h -> (Rabs (dL t) <= gam u (length h) * Rabs (fst (nth t h (0%R, 0%nat))))%R) /\
+       ((1 + dd) * nth r y 0
+        + Rsum (length h) (fun t => (fst (nth t h (0, 0%nat)) + dL t) * nth (snd (nth t h (0, 0%nat))) y 0)
+        = nth (fperm index n r) b 0)%R).
+Print Assumptions band_forward_backward_error.
+Example band_forward_backward_error_nonvacuous :
+  (0 <= ux < 1)%R /\
+  (forall x y : R, exists d : R, (Rabs d <= ux)%R /\ xsub x y = ((x - y) * (1 + d))%R) /\
+  (forall x y : R, exists d : R, (Rabs d <= ux)%R /\ xmul x y = (x * y * (1 + d))%R) /\
+  cols exb_al = 1 /\ length exb_b = 3 /\
+  (forall k, k < 3 -> k + 1 <= nth k exb_index 0) /\
+  (exists y lf, for_ 0 3 (fwd_step (A := AFlx) 3 exb_al exb_index) (exb_b, 1) = Ok (y, lf)) /\
+  (forall r, r < 3 -> (INR (length (fhist (A := AFlx) 3 1 exb_al exb_index 3 r)) * ux < 1)%R).
+Proof.
+  split; [exact ux_range|]. split; [exact xsub_ok|]. split; [exact xmul_ok|].
+  split; [reflexivity|]. split; [reflexivity|]. split; [exact exb_index_ok|]. split; [exact exb_fwd|].
+  intros [|[|[|r]]] Hr; try lia; cbn [fhist length]; cbn; pose proof ux_small; lra.
+Qed.
+
+(* without exchanges: (L + dL) y = b with the unit lower BAND matrix L_(r,j) = al[j][r-j-1], r - m1 <= j < r; the constant is gam(min r m1) *)
+Theorem band_forward_noswap_backward_error : forall (u : R), (0 <= u < 1)%R ->
+  forall (fadd fsub fmul fdiv : R -> R -> R),
+  (forall x y : R, exists d : R, (Rabs d <= u)%R /\ fsub x y = ((x - y) * (1 + d))%R) ->
+  (forall x y : R, exists d : R, (Rabs d <= u)%R /\ fmul x y = (x * y * (1 + d))%R) ->
+  forall (al : matrix (ARm fadd fsub fmul fdiv)) (index : list nat) (n m1 : nat) (b y : list R) (lf : nat),
+  cols al = m1 -> m1 <= n -> length b = n -> (INR m1 * u < 1)%R ->
+  (forall k, k < n -> nth k index 0 = k + 1) ->
+  for_ 0 n (fwd_step (A := ARm fadd fsub fmul fdiv) n al index) (b, m1) = Ok (y, lf) ->
+  length y = n /\
+  forall r, r < n ->
+    exists (dd : R) (dL : nat -> R),
+      (Rabs dd <= gam u (Nat.min r m1))%R /\
+      (forall t, t < Nat.min r m1 ->
+         (Rabs (dL t) <= gam u (Nat.min r m1)
+                         * Rabs (mat_at (A := ARm fadd fsub fmul fdiv) al m1 (r - Nat.min r m1 + t) (r - (r - Nat.min r m1 + t) - 1)))%R) /\
+      ((1 + dd) * nth r y 0
+       + Rsum (Nat.min r m1)
+           (fun t => (mat_at (A := ARm fadd fsub fmul fdiv) al m1 (r - Nat.min r m1 + t) (r - (r - Nat.min r m1 + t) - 1) + dL t)
+                     * nth (r - Nat.min r m1 + t) y 0)
+       = nth r b 0)%R.
+Proof. intros u Hu fadd fsub fmul fdiv Hs Hm al index n m1 b y lf. exact (band_forward_noswap_backward_error_lemma u Hu fadd fsub fmul fdiv Hs Hm al index n m1 b y lf). Qed.
+Check band_forward_noswap_backward_error : forall (u : R), (0 <= u < 1)%R ->
+  forall (fadd fsub fmul fdiv : R -> R -> R),
+  (forall x y : R, exists d : R, (Rabs d <= u)%R /\ fsub x y = ((x - y) * (1 + d))%R) ->
+  (forall x y : R, exists d : R, (Rabs d <= u)%R /\ fmul x y = (x * y * (1 + d))%R) ->
+  forall (al : matrix (ARm fadd fsub fmul fdiv)) (index : list nat) (n m1 : nat) (b y : list R) (lf : nat),
+  cols al = m1 -> m1 <= n -> length b = n -> (INR m1 * u < 1)%R ->
+  (forall k, k < n -> nth k index 0 = k + 1) ->
+  for_ 0 n (fwd_step (A := ARm fadd fsub fmul fdiv) n al index) (b, m1) = Ok (y, lf) ->
+  length y = n /\
+  forall r, r < n ->
+    exists (dd : R) (dL : nat -> R),
+      (Rabs dd <= gam u (Nat.min r m1))%R /\
+      (forall t, t < Nat.min r m1 ->
+         (Rabs (dL t) <= gam u (Nat.min r m1)
+                         * Rabs (mat_at (A := ARm fadd fsub fmul fdiv) al m1 (r - Nat.min r m1 + t) (r - (r - Nat.min r m1 + t) - 1)))%R) /\
+      ((1 + dd) * nth r y 0
+       + Rsum (Nat.min r m1)
+           (fun t => (mat_at (A := ARm fadd fsub fmul fdiv) al m1 (r - Nat.min r m1 + t) (r - (r - Nat.min r m1 + t) - 1) + dL t)
+                     * nth (r - Nat.min r m1 + t) y 0)
+       = nth r b 0)%R.
+Print Assumptions band_forward_noswap_backward_error.
+Example band_forward_noswap_backward_error_nonvacuous :
+  (0 <= ux < 1)%R /\
+  (forall x y : R, exists d : R, (Rabs d <= ux)%R /\ xsub x y = ((x - y) * (1 + d))%R) /\
+  (forall x y : R, exists d : R, (Rabs d <= ux)%R /\ xmul x y = (x * y * (1 + d))%R) /\
+  cols exb_al = 1 /\ length exb_b = 3 /\ (INR 1 * ux < 1)%R /\
+  (forall k, k < 3 -> nth k exb_index0 0 = k + 1) /\
+  (exists y lf, for_ 0 3 (fwd_step (A := AFlx) 3 exb_al exb_index0) (exb_b, 1) = Ok (y, lf)).
+Proof.
+  split; [exact ux_range|]. split; [exact xsub_ok|]. split; [exact xmul_ok|].
+  split; [reflexivity|]. split; [reflexivity|]. split; [exact exb_size1|]. split; [exact exb_index0_ok|exact exb_fwd0].
+Qed.
+
+(* the main loop of decompose over ANY arithmetic with  eqb x zero = true -> x = zero: the computed au (U part) and al (multipliers) as left folds over the dense reading D0 of the matrix the loop started from, with the histories and the permutation of the forward phase *)
+Theorem band_dec_trace : forall (A : Arith), (forall x : A, eqb x zero = true -> x = zero) ->
+  forall (n mm m1 : nat) (au0 al0 : matrix A) (index0 : list nat) (d0 : A)
+         (au al : matrix A) (index : list nat) (d : A) (lf : nat),
+  cols au0 = mm -> cols al0 = m1 -> 1 <= mm -> m1 <= n ->
+  for_ 0 n (dec_step false n mm) (au0, al0, index0, d0, m1) = Ok (au, al, index, d, lf) ->
+  cols au = mm /\ cols al = m1 /\
+  (forall k, k < n -> k + 1 <= nth k index 0 /\ nth k index 0 <= fwin n m1 k) /\
+  ((forall k, k < n -> mat_at au mm k 0 <> zero) ->
+   (forall r s, r < n -> s < mm ->
+      mat_at au mm r s
+      = sfold (uterms mm au (r + s) (fhist n m1 al index n r)) (D0 mm m1 au0 (fperm index n r) (r + s))) /\
+   (forall r, r < n ->
+      let h := fhist n m1 al index n r in
+      forall t, t < length h ->
+        div (sfold (uterms mm au (snd (nth t h (zero, 0))) (firstn t h))
+               (D0 mm m1 au0 (fperm index n r) (snd (nth t h (zero, 0)))))
+            (mat_at au mm (snd (nth t h (zero, 0))) 0)
+        = Ok (fst (nth t h (zero, 0))))).
+Proof. intros A Hz n mm m1 au0 al0 index0 d0 au al index d lf. exact (band_dec_trace_lemma Hz n mm m1 au0 al0 index0 d0 au al index d lf). Qed.
+Check band_dec_trace : forall (A : Arith), (forall x : A, eqb x zero = true -> x = zero) ->
+  forall (n mm m1 : nat) (au0 al0 : matrix A) (index0 : list nat) (d0 : A)
+         (au al : matrix A) (index : list nat) (d : A) (lf : nat),
+  cols au0 = mm -> cols al0 = m1 -> 1 <= mm -> m1 <= n ->
+  for_ 0 n (dec_step false n mm) (au0, al0, index0, d0, m1) = Ok (au, al, index, d, lf) ->
+  cols au = mm /\ cols al = m1 /\
+  (forall k, k < n -> k + 1 <= nth k index 0 /\ nth k index 0 <= fwin n m1 k) /\
+  ((forall k, k < n -> mat_at au mm k 0 <> zero) ->
+   (forall r s, r < n -> s < mm ->
+      mat_at au mm r s
+      = sfold (uterms mm au (r + s) (fhist n m1 al index n r)) (D0 mm m1 au0 (fperm index n r) (r + s))) /\
+   (forall r, r < n ->
+      let h := fhist n m1 al index n r in
+      forall t, t < length h ->
+        div (sfold (uterms mm au (snd (nth t h (zero, 0))) (firstn t h))
+               (D0 mm m1 au0 (fperm index n r) (snd (nth t h (zero, 0)))))
+            (mat_at au mm (snd (nth t h (zero, 0))) 0)
+        = Ok (fst (nth t h (zero, 0))))).
+Print Assumptions band_dec_trace.
+(* the 2x2 system [[1,3],[2,1]] (m1 = m2 = 1) in the arithmetic that rounds every operation: the pivot search exchanges the rows *)
+Example band_dec_trace_nonvacuous :
+  (forall z : AFlx, eqb z zero = true -> z = zero) /\
+  cols exs_au0 = 3 /\
+  for_ 0 2 (dec_step (A := AFlx) false 2 3) (exs_au0, @mat_new AFlx 2 1 0%R, repeat 0 2, 1%R, 1)
+    = Ok (exs_au, exs_al, exs_index, (- (1))%R, 2) /\
+  (forall k, k < 2 -> mat_at (A := AFlx) exs_au 3 k 0 <> 0%R) /\
+  map (fperm exs_index 2) [0; 1] = [1; 0].
+Proof. split; [exact exs_hz|]. split; [reflexivity|]. split; [exact exs_loop|]. split; [exact exs_pivots|reflexivity]. Qed.
+
+(* band_solve went through exactly these phases; the dense reading of the shifted work matrix is the dense twin of the banded matrix *)
+Theorem band_solve_phases : forall (A : Arith) (B : banded A) (b x : list A),
+  (forall z : A, eqb z zero = true -> z = zero) ->
+  wfB B -> length b = bn B -> bm1 B <= bn B ->
+  band_solve B b = Ok x ->
+  exists (au0 au al : matrix A) (index : list nat) (d : A) (y : list A) (l1 l2 l3 : nat),
+    shift_rows (bm1 B) (bm1 B + bm2 B + 1) (Model.Banded.compact B) = Ok au0 /\
+    for_ 0 (bn B) (dec_step false (bn B) (bm1 B + bm2 B + 1))
+         (au0, mat_new (bn B) (bm1 B) zero, repeat 0 (bn B), one, bm1 B) = Ok (au, al, index, d, l1) /\
+    for_ 0 (bn B) (fwd_step (bn B) al index) (b, bm1 B) = Ok (y, l2) /\
+    for_rev 0 (bn B) (back_step (bm1 B + bm2 B + 1) au) (y, 1) = Ok (x, l3) /\
+    cols au0 = bm1 B + bm2 B + 1 /\ cols au = bm1 B + bm2 B + 1 /\ cols al = bm1 B /\ length y = bn B /\
+    (forall k, k < bn B -> k + 1 <= nth k index 0 /\ nth k index 0 <= fwin (bn B) (bm1 B) k) /\
+    (forall i c, D0 (bm1 B + bm2 B + 1) (bm1 B) au0 i c = dense_entry B i c).
+Proof. intros A B b x. exact (band_solve_phases_lemma B b x). Qed.
+Check band_solve_phases : forall (A : Arith) (B : banded A) (b x : list A),
+  (forall z : A, eqb z zero = true -> z = zero) ->
+  wfB B -> length b = bn B -> bm1 B <= bn B ->
+  band_solve B b = Ok x ->
+  exists (au0 au al : matrix A) (index : list nat) (d : A) (y : list A) (l1 l2 l3 : nat),
+    shift_rows (bm1 B) (bm1 B + bm2 B + 1) (Model.Banded.compact B) = Ok au0 /\
+    for_ 0 (bn B) (dec_step false (bn B) (bm1 B + bm2 B + 1))
+         (au0, mat_new (bn B) (bm1 B) zero, repeat 0 (bn B), one, bm1 B) = Ok (au, al, index, d, l1) /\
+    for_ 0 (bn B) (fwd_step (bn B) al index) (b, bm1 B) = Ok (y, l2) /\
+    for_rev 0 (bn B) (back_step (bm1 B + bm2 B + 1) au) (y, 1) = Ok (x, l3) /\
+    cols au0 = bm1 B + bm2 B + 1 /\ cols au = bm1 B + bm2 B + 1 /\ cols al = bm1 B /\ length y = bn B /\
+    (forall k, k < bn B -> k + 1 <= nth k index 0 /\ nth k index 0 <= fwin (bn B) (bm1 B) k) /\
+    (forall i c, D0 (bm1 B + bm2 B + 1) (bm1 B) au0 i c = dense_entry B i c).
+Print Assumptions band_solve_phases.
+Example band_solve_phases_nonvacuous :
+  (forall z : AFlx, eqb z zero = true -> z = zero) /\ wfB exs_B /\ length exs_b = bn exs_B /\ bm1 exs_B <= bn exs_B /\
+  (exists x, band_solve exs_B exs_b = Ok x).
+Proof. split; [exact exs_hz|]. split; [exact exs_wf|]. split; [reflexivity|]. split; [cbn; lia|exact exs_solve]. Qed.
+
+(* Higham Theorem 9.3 for the compact band LU with partial pivoting, row by row: L U = P B + dB with |dB| <= gam(c_r)|L||U|; row r of L is fhist r (c_r pairs), Uc the dense reading of the computed au, D0 of the matrix the loop started from *)
+Theorem band_lu_backward_error : forall (u : R), (0 <= u < 1)%R ->
+  forall (fadd fsub fmul fdiv : R -> R -> R),
+  (forall x y : R, exists d : R, (Rabs d <= u)%R /\ fsub x y = ((x - y) * (1 + d))%R) ->
+  (forall x y : R, exists d : R, (Rabs d <= u)%R /\ fmul x y = (x * y * (1 + d))%R) ->
+  (forall x y : R, y <> 0%R -> exists d : R, (Rabs d <= u)%R /\ fdiv x y = (x / y * (1 + d))%R) ->
+  forall (n mm m1 : nat) (au0 al0 : matrix (ARm fadd fsub fmul fdiv)) (index0 : list nat) (d0 : R)
+         (au al : matrix (ARm fadd fsub fmul fdiv)) (index : list nat) (d : R) (lf : nat),
+  cols au0 = mm -> cols al0 = m1 -> 1 <= mm -> m1 <= n ->
+  for_ 0 n (dec_step (A := ARm fadd fsub fmul fdiv) false n mm) (au0, al0, index0, d0, m1) = Ok (au, al, index, d, lf) ->
+  (forall k, k < n -> mat_at (A := ARm fadd fsub fmul fdiv) au mm k 0 <> 0%R) ->
+  forall r, r < n ->
+    let h : list (R * nat) := fhist (A := ARm fadd fsub fmul fdiv) n m1 al index n r in
+    (INR (length h) * u < 1)%R ->
+    (forall s, s < mm ->
+       exists (dd : R) (dL : nat -> R),
+         (Rabs dd <= gam u (length h))%R /\
+         (forall t, t < length h -> (Rabs (dL t) <= gam u (length h) * Rabs (fst (nth t h (0%R, 0%nat))))%R) /\
+         ((1 + dd) * mat_at (A := ARm fadd fsub fmul fdiv) au mm r s
+          + Rsum (length h) (fun t => (fst (nth t h (0, 0%nat)) + dL t)
+                                      * Uc fadd fsub fmul fdiv au mm (snd (nth t h (0, 0%nat))) (r + s))
+          = D0 (A := ARm fadd fsub fmul fdiv) mm m1 au0 (fperm index n r) (r + s))%R) /\
+    (forall t, t < length h ->
+       exists dL : nat -> R,
+         (forall t', t' <= t -> (Rabs (dL t') <= gam u (t + 1) * Rabs (fst (nth t' h (0%R, 0%nat))))%R) /\
+         (Rsum (S t) (fun t' => (fst (nth t' h (0, 0%nat)) + dL t')
+                                * Uc fadd fsub fmul fdiv au mm (snd (nth t' h (0, 0%nat))) (snd (nth t h (0%R, 0%nat))))
+          = D0 (A := ARm fadd fsub fmul fdiv) mm m1 au0 (fperm index n r) (snd (nth t h (0%R, 0%nat))))%R).
+Proof. intros u Hu fadd fsub fmul fdiv Hs Hm Hd n mm m1 au0 al0 index0 d0 au al index d lf. exact (band_lu_backward_error_lemma u Hu fadd fsub fmul fdiv Hs Hm Hd n mm m1 au0 al0 index0 d0 au al index d lf). Qed.
+Check band_lu_backward_error : forall (u : R), (0 <= u < 1)%R ->
+  forall (fadd fsub fmul fdiv : R -> R -> R),
+  (forall x y : R, exists d : R, (Rabs d <= u)%R /\ fsub x y = ((x - y) * (1 + d))%R) ->
+  (forall x y : R, exists d : R, (Rabs d <= u)%R /\ fmul x y = (x * y * (1 + d))%R) ->
+  (forall x y : R, y <> 0%R -> exists d : R, (Rabs d <= u)%R /\ fdiv x y = (x / y * (1 + d))%R) ->
+  forall (n mm m1 : nat) (au0 al0 : matrix (ARm fadd fsub fmul fdiv)) (index0 : list nat) (d0 : R)
+         (au al : matrix (ARm fadd fsub fmul fdiv)) (index : list nat) (d : R) (lf : nat),
+  cols au0 = mm -> cols al0 = m1 -> 1 <= mm -> m1 <= n ->
+  for_ 0 n (dec_step (A := ARm fadd fsub fmul fdiv) false n mm) (au0, al0, index0, d0, m1) = Ok (au, al, index, d, lf) ->
+  (forall k, k < n -> mat_at (A := ARm fadd fsub fmul fdiv) au mm k 0 <> 0%R) ->
+  forall r, r < n ->
+    let h : list (R * nat) := fhist (A := ARm fadd fsub fmul fdiv) n m1 al index n r in
+    (INR (length h) * u < 1)%R ->
+    (forall s, s < mm ->
+       exists (dd : R) (dL : nat -> R),
+         (Rabs dd <= gam u (length h))%R /\
+         (forall t, t < length h -> (Rabs (dL t) <= gam u (length h) * Rabs (fst (nth t h (0%R, 0%nat))))%R) /\
+         ((1 + dd) * mat_at (A := ARm fadd fsub fmul fdiv) au mm r s
+          + Rsum (length h) (fun t => (fst (nth t h (0, 0%nat)) + dL t)
+                                      * Uc fadd fsub fmul fdiv au mm (snd (nth t h (0, 0%nat))) (r + s))
+          = D0 (A := ARm fadd fsub fmul fdiv) mm m1 au0 (fperm index n r) (r + s))%R) /\
+    (forall t, t < length h ->
+       exists dL : nat -> R,
+         (forall t', t' <= t -> (Rabs (dL t') <= gam u (t + 1) * Rabs (fst (nth t' h (0%R, 0%nat))))%R) /\
+         (Rsum (S t) (fun t' => (fst (nth t' h (0, 0%nat)) + dL t')
+                                * Uc fadd fsub fmul fdiv au mm (snd (nth t' h (0, 0%nat))) (snd (nth t h (0%R, 0%nat))))
+          = D0 (A := ARm fadd fsub fmul fdiv) mm m1 au0 (fperm index n r) (snd (nth t h (0%R, 0%nat))))%R).
+Print Assumptions band_lu_backward_error.
+Example band_lu_backward_error_nonvacuous :
+  (0 <= ux < 1)%R /\
+  (forall x y : R, exists d : R, (Rabs d <= ux)%R /\ xsub x y = ((x - y) * (1 + d))%R) /\
+  (forall x y : R, exists d : R, (Rabs d <= ux)%R /\ xmul x y = (x * y * (1 + d))%R) /\
+  (forall x y : R, y <> 0%R -> exists d : R, (Rabs d <= ux)%R /\ xdiv x y = (x / y * (1 + d))%R) /\
+  cols exs_au0 = 3 /\
+  for_ 0 2 (dec_step (A := AFlx) false 2 3) (exs_au0, @mat_new AFlx 2 1 0%R, repeat 0 2, 1%R, 1)
+    = Ok (exs_au, exs_al, exs_index, (- (1))%R, 2) /\
+  (forall k, k < 2 -> mat_at (A := AFlx) exs_au 3 k 0 <> 0%R) /\
+  (forall r, r < 2 -> (INR (length (fhist (A := AFlx) 2 1 exs_al exs_index 2 r)) * ux < 1)%R).
+Proof.
+  split; [exact ux_range|]. split; [exact xsub_ok|]. split; [exact xmul_ok|]. split; [exact xdiv_ok|].
+  split; [reflexivity|]. split; [exact exs_loop|]. split; [exact exs_pivots|exact exs_hist_small].
+Qed.
+
+(* band_solve as a whole in the standard model: with the factors the solver computed, (U + dU) x = y, (L + dL) y = P b and L U = P B + dB (B = dense twin of the banded matrix) hold row by row, provided the computed pivots are nonzero *)
+Theorem band_solve_backward_error : forall (u : R), (0 <= u < 1)%R ->
+  forall (fadd fsub fmul fdiv : R -> R -> R),
+  (forall x y : R, exists d : R, (Rabs d <= u)%R /\ fsub x y = ((x - y) * (1 + d))%R) ->
+  (forall x y : R, exists d : R, (Rabs d <= u)%R /\ fmul x y = (x * y * (1 + d))%R) ->
+  (forall x y : R, y <> 0%R -> exists d : R, (Rabs d <= u)%R /\ fdiv x y = (x / y * (1 + d))%R) ->
+  forall (B : banded (ARm fadd fsub fmul fdiv)) (b x : list R),
+  wfB B -> length b = bn B -> bm1 B <= bn B -> band_solve B b = Ok x ->
+  exists (au al : matrix (ARm fadd fsub fmul fdiv)) (index : list nat) (y : list R),
+    (exists d : R, decompose_gen (A := ARm fadd fsub fmul fdiv) false B (Model.Banded.compact B)
+                     (mat_new (A := ARm fadd fsub fmul fdiv) (bn B) (bm1 B) 0%R) (repeat 0 (bn B))
+                   = Ok (au, al, index, d)) /\
+    length y = bn B /\ length x = bn B /\
+    (forall k, k < bn B -> k + 1 <= nth k index 0 <= Nat.min (k + 1 + bm1 B) (bn B)) /\
+    ((forall k, k < bn B -> mat_at (A := ARm fadd fsub fmul fdiv) au (bm1 B + bm2 B + 1) k 0 <> 0%R) ->
+     ((INR (bm1 B + bm2 B + 1) * u < 1)%R ->
+      exists dU : nat -> nat -> R,
+        (forall i k, i < bn B -> k < bwin (bm1 B + bm2 B + 1) (bn B) i ->
+           (Rabs (dU i k) <= gam u (bwin (bm1 B + bm2 B + 1) (bn B) i)
+                             * Rabs (mat_at (A := ARm fadd fsub fmul fdiv) au (bm1 B + bm2 B + 1) i k))%R) /\
+        forall i, i < bn B ->
+          Rsum (bwin (bm1 B + bm2 B + 1) (bn B) i)
+            (fun k => ((mat_at (A := ARm fadd fsub fmul fdiv) au (bm1 B + bm2 B + 1) i k + dU i k) * nth (i + k) x 0)%R)
+          = nth i y 0%R) /\
+     forall r, r < bn B ->
+       let h : list (R * nat) := fhist (A := ARm fadd fsub fmul fdiv) (bn B) (bm1 B) al index (bn B) r in
+       length h <= r /\
+       (forall t, t < length h -> snd (nth t h (0%R, 0)) < r) /\
+       ((INR (length h) * u < 1)%R ->
+        (exists (dd : R) (dL : nat -> R),
+           (Rabs dd <= gam u (length h))%R /\
+           (forall t, t < length h -> (Rabs (dL t) <= gam u (length h) * Rabs (fst (nth t h (0%R, 0%nat))))%R) /\
+           ((1 + dd) * nth r y 0
+            + Rsum (length h) (fun t => (fst (nth t h (0, 0%nat)) + dL t) * nth (snd (nth t h (0, 0%nat))) y 0)
+            = nth (fperm index (bn B) r) b 0)%R) /\
+        (forall s, s < bm1 B + bm2 B + 1 ->
+           exists (dd : R) (dL : nat -> R),
+             (Rabs dd <= gam u (length h))%R /\
+             (forall t, t < length h -> (Rabs (dL t) <= gam u (length h) * Rabs (fst (nth t h (0%R, 0%nat))))%R) /\
+             ((1 + dd) * mat_at (A := ARm fadd fsub fmul fdiv) au (bm1 B + bm2 B + 1) r s
+              + Rsum (length h) (fun t => (fst (nth t h (0, 0%nat)) + dL t)
+                                          * Uc fadd fsub fmul fdiv au (bm1 B + bm2 B + 1) (snd (nth t h (0, 0%nat))) (r + s))
+              = dense_entry B (fperm index (bn B) r) (r + s))%R) /\
+        (forall t, t < length h ->
+           exists dL : nat -> R,
+             (forall t', t' <= t -> (Rabs (dL t') <= gam u (t + 1) * Rabs (fst (nth t' h (0%R, 0%nat))))%R) /\
+             (Rsum (S t) (fun t' => (fst (nth t' h (0, 0%nat)) + dL t')
+                                    * Uc fadd fsub fmul fdiv au (bm1 B + bm2 B + 1) (snd (nth t' h (0, 0%nat)))
+                                         (snd (nth t h (0%R, 0%nat))))
+              = dense_entry B (fperm index (bn B) r) (snd (nth t h (0%R, 0%nat))))%R))).
+Proof. intros u Hu fadd fsub fmul fdiv Hs Hm Hd B b x. exact (band_solve_backward_error_lemma u Hu fadd fsub fmul fdiv Hs Hm Hd B b x). Qed.
+Check band_solve_backward_error : forall (u : R), (0 <= u < 1)%R ->
+  forall (fadd fsub fmul fdiv : R -> R -> R),
+  (forall x y : R, exists d : R, (Rabs d <= u)%R /\ fsub x y = ((x - y) * (1 + d))%R) ->
+  (forall x y : R, exists d : R, (Rabs d <= u)%R /\ fmul x y = (x * y * (1 + d))%R) ->
+  (forall x y : R, y <> 0%R -> exists d : R, (Rabs d <= u)%R /\ fdiv x y = (x / y * (1 + d))%R) ->
+  forall (B : banded (ARm fadd fsub fmul fdiv)) (b x : list R),
+  wfB B -> length b = bn B -> bm1 B <= bn B -> band_solve B b = Ok x ->
+  exists (au al : matrix (ARm fadd fsub fmul fdiv)) (index : list nat) (y : list R),
+    (exists d : R, decompose_gen (A := ARm fadd fsub fmul fdiv) false B (Model.Banded.compact B)
+                     (mat_new (A := ARm fadd fsub fmul fdiv) (bn B) (bm1 B) 0%R) (repeat 0 (bn B))
+                   = Ok (au, al, index, d)) /\
+    length y = bn B /\ length x = bn B /\
+    (forall k, k < bn B -> k + 1 <= nth k index 0 <= Nat.min (k + 1 + bm1 B) (bn B)) /\
+    ((forall k, k < bn B -> mat_at (A := ARm fadd fsub fmul fdiv) au (bm1 B + bm2 B + 1) k 0 <> 0%R) ->
+     ((INR (bm1 B + bm2 B + 1) * u < 1)%R ->
+      exists dU : nat -> nat -> R,
+        (forall i k, i < bn B -> k < bwin (bm1 B + bm2 B + 1) (bn B) i ->
+           (Rabs (dU i k) <= gam u (bwin (bm1 B + bm2 B + 1) (bn B) i)
+                             * Rabs (mat_at (A := ARm fadd fsub fmul fdiv) au (bm1 B + bm2 B + 1) i k))%R) /\
+        forall i, i < bn B ->
+          Rsum (bwin (bm1 B + bm2 B + 1) (bn B) i)
+            (fun k => ((mat_at (A := ARm fadd fsub fmul fdiv) au (bm1 B + bm2 B + 1) i k + dU i k) * nth (i + k) x 0)%R)
+          = nth i y 0%R) /\
+     forall r, r < bn B ->
+       let h : list (R * nat) := fhist (A := ARm fadd fsub fmul fdiv) (bn B) (bm1 B) al index (bn B) r in
+       length h <= r /\
+       (forall t, t < length h -> snd (nth t h (0%R, 0)) < r) /\
+       ((INR (length h) * u < 1)%R ->
+        (exists (dd : R) (dL : nat -> R),
+           (Rabs dd <= gam u (length h))%R /\
+           (forall t, t < length h -> (Rabs (dL t) <= gam u (length h) * Rabs (fst (nth t h (0%R, 0%nat))))%R) /\
+           ((1 + dd) * nth r y 0
+            + Rsum (length h) (fun t => (fst (nth t h (0, 0%nat)) + dL t) * nth (snd (nth t h (0, 0%nat))) y 0)
+            = nth (fperm index (bn B) r) b 0)%R) /\
+        (forall s, s < bm1 B + bm2 B + 1 ->
+           exists (dd : R) (dL : nat -> R),
+             (Rabs dd <= gam u (length h))%R /\
+             (forall t, t < length h -> (Rabs (dL t) <= gam u (length h) * Rabs (fst (nth t h (0%R, 0%nat))))%R) /\
+             ((1 + dd) * mat_at (A := ARm fadd fsub fmul fdiv) au (bm1 B + bm2 B + 1) r s
+              + Rsum (length h) (fun t => (fst (nth t h (0, 0%nat)) + dL t)
+                                          * Uc fadd fsub fmul fdiv au (bm1 B + bm2 B + 1) (snd (nth t h (0, 0%nat))) (r + s))
+              = dense_entry B (fperm index (bn B) r) (r + s))%R) /\
+        (forall t, t < length h ->
+           exists dL : nat -> R,
+             (forall t', t' <= t -> (Rabs (dL t') <= gam u (t + 1) * Rabs (fst (nth t' h (0%R, 0%nat))))%R) /\
+             (Rsum (S t) (fun t' => (fst (nth t' h (0, 0%nat)) + dL t')
+                                    * Uc fadd fsub fmul fdiv au (bm1 B + bm2 B + 1) (snd (nth t' h (0, 0%nat)))
+                                         (snd (nth t h (0%R, 0%nat))))
+              = dense_entry B (fperm index (bn B) r) (snd (nth t h (0%R, 0%nat))))%R))).
+Print Assumptions band_solve_backward_error.
+(* the same 2x2 system through band_solve in the rounding arithmetic: it answers, its factors are exs_au / exs_al / exs_index
+   (one exchange), the computed pivots are nonzero, the sizes are admissible *)
+Example band_solve_backward_error_nonvacuous :
+  (0 <= ux < 1)%R /\
+  (forall x y : R, exists d : R, (Rabs d <= ux)%R /\ xsub x y = ((x - y) * (1 + d))%R) /\
+  (forall x y : R, exists d : R, (Rabs d <= ux)%R /\ xmul x y = (x * y * (1 + d))%R) /\
+  (forall x y : R, y <> 0%R -> exists d : R, (Rabs d <= ux)%R /\ xdiv x y = (x / y * (1 + d))%R) /\
+  wfB exs_B /\ length exs_b = bn exs_B /\ bm1 exs_B <= bn exs_B /\
+  (exists x, band_solve exs_B exs_b = Ok x) /\
+  decompose_gen false exs_B (Model.Banded.compact exs_B) (@mat_new AFlx 2 1 0%R) (repeat 0 2) = Ok (exs_au, exs_al, exs_index, (- (1))%R) /\
+  (forall k, k < 2 -> mat_at (A := AFlx) exs_au 3 k 0 <> 0%R) /\
+  (INR 3 * ux < 1)%R /\
+  (forall r, r < 2 -> (INR (length (fhist (A := AFlx) 2 1 exs_al exs_index 2 r)) * ux < 1)%R).
+Proof.
+  split; [exact ux_range|]. split; [exact xsub_ok|]. split; [exact xmul_ok|]. split; [exact xdiv_ok|].
+  split; [exact exs_wf|]. split; [reflexivity|]. split; [cbn; lia|]. split; [exact exs_solve|].
+  split; [exact exs_decompose|]. split; [exact exs_pivots|]. split; [exact exs_size3|exact exs_hist_small].
+Qed.
+(* with partial pivoting the number c_r of updates of a row is not bounded by the bandwidth: for tridiag(2,1,1) of size 6
+   (m1 = 1, exact rationals) the first row travels to the last position and is updated at every stage *)
+Example band_history_grows_example :
+  hist_lengths (decompose_gen false exq_B (Model.Banded.compact exq_B) (mat_new 6 1 zero) (repeat 0 6)) = [0; 0; 0; 0; 0; 5] /\
+  hist_perm (decompose_gen false exq_B (Model.Banded.compact exq_B) (mat_new 6 1 zero) (repeat 0 6)) = [1; 2; 3; 4; 5; 0].
+Proof. exact exq_history_grows. Qed.
+
+(* shape of L under partial pivoting: row r holds c_r <= r multipliers, of the consecutive stages r - c_r .. r-1 (any arithmetic; pure bookkeeping of the exchange record) *)
+Theorem band_history_shape : forall (A : Arith) (n m1 : nat) (al : matrix A) (index : list nat) (r : nat),
+  (forall k, k < n -> k + 1 <= nth k index 0 /\ nth k index 0 <= fwin n m1 k) -> r < n ->
+  let h := fhist n m1 al index n r in
+  length h <= r /\ forall t, t < length h -> snd (nth t h (zero, 0)) = r - length h + t.
+Proof. intros A n m1 al index r. exact (band_history_shape_lemma n m1 al index r). Qed.
+Check band_history_shape : forall (A : Arith) (n m1 : nat) (al : matrix A) (index : list nat) (r : nat),
+  (forall k, k < n -> k + 1 <= nth k index 0 /\ nth k index 0 <= fwin n m1 k) -> r < n ->
+  let h := fhist n m1 al index n r in
+  length h <= r /\ forall t, t < length h -> snd (nth t h (zero, 0)) = r - length h + t.
+Print Assumptions band_history_shape.
+Example band_history_shape_nonvacuous :
+  (forall k, k < 3 -> k + 1 <= nth k exb_index 0 /\ nth k exb_index 0 <= fwin 3 1 k) /\
+  map (fun r => map snd (fhist (A := AFlx) 3 1 exb_al exb_index 3 r)) [0; 1; 2] = [[]; [0]; [1]].
+Proof. split; [|reflexivity]. intros [|[|[|k]]] Hk; cbn; lia. Qed.
+
+(* the band LU WITHOUT exchanges (index[k] = k+1): L_(r,j) = al[j][r-j-1], r - m1 <= j < r, and the constant depends on the bandwidth only: gam(min r m1) <= gam(m1) *)
+Theorem band_lu_noswap_backward_error : forall (u : R), (0 <= u < 1)%R ->
+  forall (fadd fsub fmul fdiv : R -> R -> R),
+  (forall x y : R, exists d : R, (Rabs d <= u)%R /\ fsub x y = ((x - y) * (1 + d))%R) ->
+  (forall x y : R, exists d : R, (Rabs d <= u)%R /\ fmul x y = (x * y * (1 + d))%R) ->
+  (forall x y : R, y <> 0%R -> exists d : R, (Rabs d <= u)%R /\ fdiv x y = (x / y * (1 + d))%R) ->
+  forall (n mm m1 : nat) (au0 al0 : matrix (ARm fadd fsub fmul fdiv)) (index0 : list nat) (d0 : R)
+         (au al : matrix (ARm fadd fsub fmul fdiv)) (index : list nat) (d : R) (lf : nat),
+  cols au0 = mm -> cols al0 = m1 -> 1 <= mm -> m1 <= n -> (INR m1 * u < 1)%R ->
+  for_ 0 n (dec_step (A := ARm fadd fsub fmul fdiv) false n mm) (au0, al0, index0, d0, m1) = Ok (au, al, index, d, lf) ->
+  (forall k, k < n -> mat_at (A := ARm fadd fsub fmul fdiv) au mm k 0 <> 0%R) ->
+  (forall k, k < n -> nth k index 0 = k + 1) ->
+  forall r, r < n ->
+    (forall s, s < mm ->
+       exists (dd : R) (dL : nat -> R),
+         (Rabs dd <= gam u (Nat.min r m1))%R /\
+         (forall t, t < Nat.min r m1 ->
+            (Rabs (dL t) <= gam u (Nat.min r m1)
+                            * Rabs (mat_at (A := ARm fadd fsub fmul fdiv) al m1 (r - Nat.min r m1 + t) (r - (r - Nat.min r m1 + t) - 1)))%R) /\
+         ((1 + dd) * mat_at (A := ARm fadd fsub fmul fdiv) au mm r s
+          + Rsum (Nat.min r m1)
+              (fun t => (mat_at (A := ARm fadd fsub fmul fdiv) al m1 (r - Nat.min r m1 + t) (r - (r - Nat.min r m1 + t) - 1) + dL t)
+                        * Uc fadd fsub fmul fdiv au mm (r - Nat.min r m1 + t) (r + s))
+          = D0 (A := ARm fadd fsub fmul fdiv) mm m1 au0 r (r + s))%R) /\
+    (forall t, t < Nat.min r m1 ->
+       exists dL : nat -> R,
+         (forall t', t' <= t ->
+            (Rabs (dL t') <= gam u (t + 1)
+                             * Rabs (mat_at (A := ARm fadd fsub fmul fdiv) al m1 (r - Nat.min r m1 + t') (r - (r - Nat.min r m1 + t') - 1)))%R) /\
+         (Rsum (S t)
+            (fun t' => (mat_at (A := ARm fadd fsub fmul fdiv) al m1 (r - Nat.min r m1 + t') (r - (r - Nat.min r m1 + t') - 1) + dL t')
+                       * Uc fadd fsub fmul fdiv au mm (r - Nat.min r m1 + t') (r - Nat.min r m1 + t))
+          = D0 (A := ARm fadd fsub fmul fdiv) mm m1 au0 r (r - Nat.min r m1 + t))%R).
+Proof. intros u Hu fadd fsub fmul fdiv Hs Hm Hd n mm m1 au0 al0 index0 d0 au al index d lf. exact (band_lu_noswap_backward_error_lemma u Hu fadd fsub fmul fdiv Hs Hm Hd n mm m1 au0 al0 index0 d0 au al index d lf). Qed.
+Check band_lu_noswap_backward_error : forall (u : R), (0 <= u < 1)%R ->
+  forall (fadd fsub fmul fdiv : R -> R -> R),
+  (forall x y : R, exists d : R, (Rabs d <= u)%R /\ fsub x y = ((x - y) * (1 + d))%R) ->
+  (forall x y : R, exists d : R, (Rabs d <= u)%R /\ fmul x y = (x * y * (1 + d))%R) ->
+  (forall x y : R, y <> 0%R -> exists d : R, (Rabs d <= u)%R /\ fdiv x y = (x / y * (1 + d))%R) ->
+  forall (n mm m1 : nat) (au0 al0 : matrix (ARm fadd fsub fmul fdiv)) (index0 : list nat) (d0 : R)
+         (au al : matrix (ARm fadd fsub fmul fdiv)) (index : list nat) (d : R) (lf : nat),
+  cols au0 = mm -> cols al0 = m1 -> 1 <= mm -> m1 <= n -> (INR m1 * u < 1)%R ->
+  for_ 0 n (dec_step (A := ARm fadd fsub fmul fdiv) false n mm) (au0, al0, index0, d0, m1) = Ok (au, al, index, d, lf) ->
+  (forall k, k < n -> mat_at (A := ARm fadd fsub fmul fdiv) au mm k 0 <> 0%R) ->
+  (forall k, k < n -> nth k index 0 = k + 1) ->
+  forall r, r < n ->
+    (forall s, s < mm ->
+       exists (dd : R) (dL : nat -> R),
+         (Rabs dd <= gam u (Nat.min r m1))%R /\
+         (forall t, t < Nat.min r m1 ->
+            (Rabs (dL t) <= gam u (Nat.min r m1)
+                            * Rabs (mat_at (A := ARm fadd fsub fmul fdiv) al m1 (r - Nat.min r m1 + t) (r - (r - Nat.min r m1 + t) - 1)))%R) /\
+         ((1 + dd) * mat_at (A := ARm fadd fsub fmul fdiv) au mm r s
+          + Rsum (Nat.min r m1)
+              (fun t => (mat_at (A := ARm fadd fsub fmul fdiv) al m1 (r - Nat.min r m1 + t) (r - (r - Nat.min r m1 + t) - 1) + dL t)
+                        * Uc fadd fsub fmul fdiv au mm (r - Nat.min r m1 + t) (r + s))
+          = D0 (A := ARm fadd fsub fmul fdiv) mm m1 au0 r (r + s))%R) /\
+    (forall t, t < Nat.min r m1 ->
+       exists dL : nat -> R,
+         (forall t', t' <= t ->
+            (Rabs (dL t') <= gam u (t + 1)
+                             * Rabs (mat_at (A := ARm fadd fsub fmul fdiv) al m1 (r - Nat.min r m1 + t') (r - (r - Nat.min r m1 + t') - 1)))%R) /\
+         (Rsum (S t)
+            (fun t' => (mat_at (A := ARm fadd fsub fmul fdiv) al m1 (r - Nat.min r m1 + t') (r - (r - Nat.min r m1 + t') - 1) + dL t')
+                       * Uc fadd fsub fmul fdiv au mm (r - Nat.min r m1 + t') (r - Nat.min r m1 + t))
+          = D0 (A := ARm fadd fsub fmul fdiv) mm m1 au0 r (r - Nat.min r m1 + t))%R).
+Print Assumptions band_lu_noswap_backward_error.
+(* the 2x2 system [[2,1],[1,3]] (m1 = m2 = 1): the pivot search keeps the diagonal *)
+Example band_lu_noswap_backward_error_nonvacuous :
+  (0 <= ux < 1)%R /\
+  (forall x y : R, exists d : R, (Rabs d <= ux)%R /\ xsub x y = ((x - y) * (1 + d))%R) /\
+  (forall x y : R, exists d : R, (Rabs d <= ux)%R /\ xmul x y = (x * y * (1 + d))%R) /\
+  (forall x y : R, y <> 0%R -> exists d : R, (Rabs d <= ux)%R /\ xdiv x y = (x / y * (1 + d))%R) /\
+  cols exn_au0 = 3 /\ (INR 1 * ux < 1)%R /\
+  for_ 0 2 (dec_step (A := AFlx) false 2 3) (exn_au0, @mat_new AFlx 2 1 0%R, repeat 0 2, 1%R, 1)
+    = Ok (exn_au, exn_al, [1; 2], 1%R, 2) /\
+  (forall k, k < 2 -> mat_at (A := AFlx) exn_au 3 k 0 <> 0%R) /\
+  (forall k, k < 2 -> nth k [1; 2] 0 = k + 1).
+Proof.
+  split; [exact ux_range|]. split; [exact xsub_ok|]. split; [exact xmul_ok|]. split; [exact xdiv_ok|].
+  split; [reflexivity|]. split; [exact exb_size1|]. split; [exact exn_loop|]. split; [exact exn_pivots|].
+  intros [|[|k]] Hk; try lia; reflexivity.
+Qed.
+
+(* Higham Theorem 9.4 for the banded solver: band_solve's answer solves ONE nearby system (B + dB) x = b exactly, |dB| <= (3 gam N + gam N^2) |L||U| with L ([Ld], row r = fhist r) and U ([Uc]) the computed factors; N bounds the bandwidth m1+m2+1 and the numbers c_r of row updates (N = m1+m2+1 when no rows were exchanged) *)
+Theorem band_solve_single_backward_error : forall (u : R), (0 <= u < 1)%R ->
+  forall (fadd fsub fmul fdiv : R -> R -> R),
+  (forall x y : R, exists d : R, (Rabs d <= u)%R /\ fsub x y = ((x - y) * (1 + d))%R) ->
+  (forall x y : R, exists d : R, (Rabs d <= u)%R /\ fmul x y = (x * y * (1 + d))%R) ->
+  (forall x y : R, y <> 0%R -> exists d : R, (Rabs d <= u)%R /\ fdiv x y = (x / y * (1 + d))%R) ->
+  forall (B : banded (ARm fadd fsub fmul fdiv)) (b x : list R) (N : nat),
+  wfB B -> length b = bn B -> bm1 B <= bn B -> band_solve B b = Ok x ->
+  exists (au al : matrix (ARm fadd fsub fmul fdiv)) (index : list nat),
+    (exists d : R, decompose_gen (A := ARm fadd fsub fmul fdiv) false B (Model.Banded.compact B)
+                     (mat_new (A := ARm fadd fsub fmul fdiv) (bn B) (bm1 B) 0%R) (repeat 0 (bn B))
+                   = Ok (au, al, index, d)) /\
+    ((forall k, k < bn B -> mat_at (A := ARm fadd fsub fmul fdiv) au (bm1 B + bm2 B + 1) k 0 <> 0%R) ->
+     bm1 B + bm2 B + 1 <= N ->
+     (forall r, r < bn B -> length (fhist (A := ARm fadd fsub fmul fdiv) (bn B) (bm1 B) al index (bn B) r) <= N) ->
+     (INR N * u < 1)%R ->
+     (forall r, r < bn B -> fperm index (bn B) r < bn B) /\
+     (forall r r', fperm index (bn B) r = fperm index (bn B) r' -> r = r') /\
+     exists dB : nat -> nat -> R,
+       (forall r c, r < bn B -> c < bn B ->
+          (Rabs (dB r c) <= (3 * gam u N + gam u N * gam u N)
+                            * Rsum (bn B) (fun k => Rabs (Ld (fhist (A := ARm fadd fsub fmul fdiv) (bn B) (bm1 B) al index (bn B) r) r k)
+                                                    * Rabs (Uc fadd fsub fmul fdiv au (bm1 B + bm2 B + 1) k c)))%R) /\
+       forall r, r < bn B ->
+         Rsum (bn B) (fun c => ((dense_entry B (fperm index (bn B) r) c + dB r c) * nth c x 0)%R)
+         = nth (fperm index (bn B) r) b 0%R).
+Proof. intros u Hu fadd fsub fmul fdiv Hs Hm Hd B b x N. exact (band_solve_single_backward_error_lemma u Hu fadd fsub fmul fdiv Hs Hm Hd B b x N). Qed.
+Check band_solve_single_backward_error : forall (u : R), (0 <= u < 1)%R ->
+  forall (fadd fsub fmul fdiv : R -> R -> R),
+  (forall x y : R, exists d : R, (Rabs d <= u)%R /\ fsub x y = ((x - y) * (1 + d))%R) ->
+  (forall x y : R, exists d : R, (Rabs d <= u)%R /\ fmul x y = (x * y * (1 + d))%R) ->
+  (forall x y : R, y <> 0%R -> exists d : R, (Rabs d <= u)%R /\ fdiv x y = (x / y * (1 + d))%R) ->
+  forall (B : banded (ARm fadd fsub fmul fdiv)) (b x : list R) (N : nat),
+  wfB B -> length b = bn B -> bm1 B <= bn B -> band_solve B b = Ok x ->
+  exists (au al : matrix (ARm fadd fsub fmul fdiv)) (index : list nat),
+    (exists d : R, decompose_gen (A := ARm fadd fsub fmul fdiv) false B (Model.Banded.compact B)
+                     (mat_new (A := ARm fadd fsub fmul fdiv) (bn B) (bm1 B) 0%R) (repeat 0 (bn B))
+                   = Ok (au, al, index, d)) /\
+    ((forall k, k < bn B -> mat_at (A := ARm fadd fsub fmul fdiv) au (bm1 B + bm2 B + 1) k 0 <> 0%R) ->
+     bm1 B + bm2 B + 1 <= N ->
+     (forall r, r < bn B -> length (fhist (A := ARm fadd fsub fmul fdiv) (bn B) (bm1 B) al index (bn B) r) <= N) ->
+     (INR N * u < 1)%R ->
+     (forall r, r < bn B -> fperm index (bn B) r < bn B) /\
+     (forall r r', fperm index (bn B) r = fperm index (bn B) r' -> r = r') /\
+     exists dB : nat -> nat -> R,
+       (forall r c, r < bn B -> c < bn B ->
+          (Rabs (dB r c) <= (3 * gam u N + gam u N * gam u N)
+                            * Rsum (bn B) (fun k => Rabs (Ld (fhist (A := ARm fadd fsub fmul fdiv) (bn B) (bm1 B) al index (bn B) r) r k)
+                                                    * Rabs (Uc fadd fsub fmul fdiv au (bm1 B + bm2 B + 1) k c)))%R) /\
+       forall r, r < bn B ->
+         Rsum (bn B) (fun c => ((dense_entry B (fperm index (bn B) r) c + dB r c) * nth c x 0)%R)
+         = nth (fperm index (bn B) r) b 0%R).
+Print Assumptions band_solve_single_backward_error.
+Example band_solve_single_backward_error_nonvacuous :
+  (0 <= ux < 1)%R /\
+  (forall x y : R, exists d : R, (Rabs d <= ux)%R /\ xsub x y = ((x - y) * (1 + d))%R) /\
+  (forall x y : R, exists d : R, (Rabs d <= ux)%R /\ xmul x y = (x * y * (1 + d))%R) /\
+  (forall x y : R, y <> 0%R -> exists d : R, (Rabs d <= ux)%R /\ xdiv x y = (x / y * (1 + d))%R) /\
+  wfB exs_B /\ length exs_b = bn exs_B /\ bm1 exs_B <= bn exs_B /\
+  (exists x, band_solve exs_B exs_b = Ok x) /\
+  decompose_gen false exs_B (Model.Banded.compact exs_B) (@mat_new AFlx 2 1 0%R) (repeat 0 2) = Ok (exs_au, exs_al, exs_index, (- (1))%R) /\
+  (forall k, k < 2 -> mat_at (A := AFlx) exs_au 3 k 0 <> 0%R) /\
+  bm1 exs_B + bm2 exs_B + 1 <= 3 /\
+  (forall r, r < 2 -> length (fhist (A := AFlx) 2 1 exs_al exs_index 2 r) <= 3) /\
+  (INR 3 * ux < 1)%R.
+Proof.
+  split; [exact ux_range|]. split; [exact xsub_ok|]. split; [exact xmul_ok|]. split; [exact xdiv_ok|].
+  split; [exact exs_wf|]. split; [reflexivity|]. split; [cbn; lia|]. split; [exact exs_solve|].
+  split; [exact exs_decompose|]. split; [exact exs_pivots|]. split; [cbn; lia|]. split; [exact exs_hist_le3|exact exs_size3].
+Qed.
+
+(* the classical statement when the pivot search never left the diagonal (index[k] = k+1): (B + dB) x = b with |dB| <= gam(3 (m1+m2+1)) |L||U| -- the constant depends on the bandwidth only, not on n *)
+Theorem band_solve_noswap_single_backward_error : forall (u : R), (0 <= u < 1)%R ->
+  forall (fadd fsub fmul fdiv : R -> R -> R),
+  (forall x y : R, exists d : R, (Rabs d <= u)%R /\ fsub x y = ((x - y) * (1 + d))%R) ->
+  (forall x y : R, exists d : R, (Rabs d <= u)%R /\ fmul x y = (x * y * (1 + d))%R) ->
+  (forall x y : R, y <> 0%R -> exists d : R, (Rabs d <= u)%R /\ fdiv x y = (x / y * (1 + d))%R) ->
+  forall (B : banded (ARm fadd fsub fmul fdiv)) (b x : list R),
+  wfB B -> length b = bn B -> bm1 B <= bn B -> band_solve B b = Ok x ->
+  (INR (3 * (bm1 B + bm2 B + 1)) * u < 1)%R ->
+  exists (au al : matrix (ARm fadd fsub fmul fdiv)) (index : list nat),
+    (exists d : R, decompose_gen (A := ARm fadd fsub fmul fdiv) false B (Model.Banded.compact B)
+                     (mat_new (A := ARm fadd fsub fmul fdiv) (bn B) (bm1 B) 0%R) (repeat 0 (bn B))
+                   = Ok (au, al, index, d)) /\
+    ((forall k, k < bn B -> mat_at (A := ARm fadd fsub fmul fdiv) au (bm1 B + bm2 B + 1) k 0 <> 0%R) ->
+     (forall k, k < bn B -> nth k index 0 = k + 1) ->
+     exists dB : nat -> nat -> R,
+       (forall r c, r < bn B -> c < bn B ->
+          (Rabs (dB r c) <= gam u (3 * (bm1 B + bm2 B + 1))
+                            * Rsum (bn B) (fun k => Rabs (Ld (fhist (A := ARm fadd fsub fmul fdiv) (bn B) (bm1 B) al index (bn B) r) r k)
+                                                    * Rabs (Uc fadd fsub fmul fdiv au (bm1 B + bm2 B + 1) k c)))%R) /\
+       forall r, r < bn B ->
+         Rsum (bn B) (fun c => ((dense_entry B r c + dB r c) * nth c x 0)%R) = nth r b 0%R).
+Proof. intros u Hu fadd fsub fmul fdiv Hs Hm Hd B b x. exact (band_solve_noswap_single_backward_error_lemma u Hu fadd fsub fmul fdiv Hs Hm Hd B b x). Qed.
+Check band_solve_noswap_single_backward_error : forall (u : R), (0 <= u < 1)%R ->
+  forall (fadd fsub fmul fdiv : R -> R -> R),
+  (forall x y : R, exists d : R, (Rabs d <= u)%R /\ fsub x y = ((x - y) * (1 + d))%R) ->
+  (forall x y : R, exists d : R, (Rabs d <= u)%R /\ fmul x y = (x * y * (1 + d))%R) ->
+  (forall x y : R, y <> 0%R -> exists d : R, (Rabs d <= u)%R /\ fdiv x y = (x / y * (1 + d))%R) ->
+  forall (B : banded (ARm fadd fsub fmul fdiv)) (b x : list R),
+  wfB B -> length b = bn B -> bm1 B <= bn B -> band_solve B b = Ok x ->
+  (INR (3 * (bm1 B + bm2 B + 1)) * u < 1)%R ->
+  exists (au al : matrix (ARm fadd fsub fmul fdiv)) (index : list nat),
+    (exists d : R, decompose_gen (A := ARm fadd fsub fmul fdiv) false B (Model.Banded.compact B)
+                     (mat_new (A := ARm fadd fsub fmul fdiv) (bn B) (bm1 B) 0%R) (repeat 0 (bn B))
+                   = Ok (au, al, index, d)) /\
+    ((forall k, k < bn B -> mat_at (A := ARm fadd fsub fmul fdiv) au (bm1 B + bm2 B + 1) k 0 <> 0%R) ->
+     (forall k, k < bn B -> nth k index 0 = k + 1) ->
+     exists dB : nat -> nat -> R,
+       (forall r c, r < bn B -> c < bn B ->
+          (Rabs (dB r c) <= gam u (3 * (bm1 B + bm2 B + 1))
+                            * Rsum (bn B) (fun k => Rabs (Ld (fhist (A := ARm fadd fsub fmul fdiv) (bn B) (bm1 B) al index (bn B) r) r k)
+                                                    * Rabs (Uc fadd fsub fmul fdiv au (bm1 B + bm2 B + 1) k c)))%R) /\
+       forall r, r < bn B ->
+         Rsum (bn B) (fun c => ((dense_entry B r c + dB r c) * nth c x 0)%R) = nth r b 0%R).
+Print Assumptions band_solve_noswap_single_backward_error.
+(* [[2,1],[1,3]] x = [1,2]: the pivot search keeps the diagonal, the exchange record is [1; 2] *)
+Example band_solve_noswap_single_backward_error_nonvacuous :
+  (0 <= ux < 1)%R /\
+  (forall x y : R, exists d : R, (Rabs d <= ux)%R /\ xsub x y = ((x - y) * (1 + d))%R) /\
+  (forall x y : R, exists d : R, (Rabs d <= ux)%R /\ xmul x y = (x * y * (1 + d))%R) /\
+  (forall x y : R, y <> 0%R -> exists d : R, (Rabs d <= ux)%R /\ xdiv x y = (x / y * (1 + d))%R) /\
+  wfB exn_B /\ length exs_b = bn exn_B /\ bm1 exn_B <= bn exn_B /\
+  (exists x, band_solve exn_B exs_b = Ok x) /\
+  (INR (3 * (bm1 exn_B + bm2 exn_B + 1)) * ux < 1)%R /\
+  decompose_gen false exn_B (Model.Banded.compact exn_B) (@mat_new AFlx 2 1 0%R) (repeat 0 2) = Ok (exn_au, exn_al, [1; 2], 1%R) /\
+  (forall k, k < 2 -> mat_at (A := AFlx) exn_au 3 k 0 <> 0%R) /\
+  (forall k, k < 2 -> nth k [1; 2] 0 = k + 1).
+Proof.
+  split; [exact ux_range|]. split; [exact xsub_ok|]. split; [exact xmul_ok|]. split; [exact xdiv_ok|].
+  split; [exact exn_wf|]. split; [reflexivity|]. split; [cbn; lia|]. split; [exact exn_solve|].
+  split; [exact exn_size9|]. split; [exact exn_decompose|]. split; [exact exn_pivots|].
+  intros [|[|k]] Hk; try lia; reflexivity.
+Qed.
+
